@@ -53,6 +53,7 @@ def step (d : Drv) (line : String) : Drv × List String :=
   match toks with
   | [] => (d, [])
   | "#" :: _ => (d, [])
+  | ["reset"] => ({ st := State.empty d.st.fams }, ["ok"])
   | ["fam", dv, lv] =>
     ({ d with st := { d.st with fams := d.st.fams ++ [⟨parseValidators dv, parseValidators lv⟩] } }, ["ok"])
   | "open" :: fam :: kind :: res :: rest =>
@@ -97,6 +98,7 @@ partial def loop (h : IO.FS.Stream) (out : IO.FS.Stream) (d : Drv) : IO Unit := 
   if line.isEmpty then return ()
   let (d', outs) := step d (line.trimAscii.toString)
   for o in outs do out.putStrLn o
+  out.flush
   loop h out d'
 
 def main : IO Unit := do
